@@ -58,6 +58,9 @@ def _make(rng, nd, score, big=False):
         mask = (rng.random(ms) < 0.75).astype(np.float64)
         if mask.sum() < 3 or template[mask > 0].std() == 0:
             mask = None
+        elif score != "MCC" and rng.random() < 0.5:
+            # soft-edged mask (fractional weights): splits, schedules and histories must not matter for these either
+            mask = mask * rng.choice([0.25, 0.5, 0.75, 1.0], size=ms)
     tmask = (rng.random(ns) < 0.9).astype(np.float64) if score == "MCC" else None
     rots = [r for r in S.grid_rotations(nd) if S.rot_ok_for_shape(r[0], ms)]
     sel = rng.permutation(len(rots))[: int(rng.integers(2, min(len(rots), 5) + 1))]
@@ -261,6 +264,44 @@ def run(ctx):
         ctx.count("score:" + score)
         if it < 2:
             ctx.sample(inp)
+
+    # ---- inner jobs only (no tiles): every voxel must agree exactly with the single-job run, for every kind of mask
+    masked = [x for x in ("FLC", "FLCSphericalMask", "CORR", "CAM", "MCC") if x in S.SCORES]
+    for it in range(ctx.budget(6, 50)):
+        score = masked[it % len(masked)]
+        nd = 2 if it % 3 else 3
+        ns, ms, target, template, mask, tmask, R = _make(rng, nd, score)
+        kind = ["soft", "binary", "none"][(it // len(masked) + it) % 3] if score != "MCC" else "binary"
+        if it == 0:
+            kind = "soft"
+        if kind == "none":
+            mask = None
+        else:
+            mask = (rng.random(ms) < 0.8).astype(np.float64)
+            if mask.sum() < 3 or template[mask > 0].std() == 0:
+                mask = np.ones(ms)
+            if kind == "soft":
+                mask = mask * rng.choice([0.25, 0.5, 0.75, 1.0], size=ms)
+        if score == "FLCSphericalMask" and mask is not None:
+            mask = np.maximum.reduce([S.rotate_grid(mask, p_, f_) for p_, f_, _ in S.grid_rotations(nd) if S.rot_ok_for_shape(p_, ms)])
+        k = [2, 3, len(R) + 2, 4][it % 4]
+        pad = bool(it % 2)
+        S.set_precision(True)
+        try:
+            common = dict(mask=mask, target_mask=tmask, pad=pad, pad_edges=False, rotations=R, splits={}, dtype=np.float64)
+            ref = S.run_subsets(score, target, template, schedule=(1, 1), **common)
+            got = S.run_subsets(score, target, template, schedule=(1, k), **common)
+        finally:
+            S.set_precision(False)
+        inp = {"score": score, "ns": ns, "ms": ms, "schedule": [1, k], "n_rot": len(R), "mask_kind": kind, "pad_fourier": pad,
+               "target": target.tolist(), "template": template.tolist(), "mask": None if mask is None else mask.tolist(),
+               "rotations": np.asarray(R).tolist()}
+        a, b = np.asarray(ref[0], np.float64), np.asarray(got[0], np.float64)
+        ok = a.shape == b.shape and bool(np.max(np.abs(a - b)) <= 1e-7)
+        ctx.spec("inner jobs: aggregated map equals the single-job run on every voxel", inp, ok,
+                 {"max diff": float(np.max(np.abs(a - b))) if a.shape == b.shape else None}, key=f"innerjobs:{score}")
+        ctx.distinct(("innerjobs", score, tuple(ns), tuple(ms), k, kind, pad))
+        ctx.count("innerjobs:mask=" + kind)
 
     # ---- per-tile correspondence with the Lean model in the `valid` frame (CC, exact integers)
     for it in range(ctx.budget(6, 40)):
